@@ -33,6 +33,9 @@ func needBin(t *testing.T, env *hx.Env) {
 // the label. total is the number of cases over all shards.
 func rapidRun(t *testing.T, env *hx.Env, label string, total int, prop func(*rapid.T)) {
 	t.Helper()
+	if v := os.Getenv("VERIF_TOTAL"); v != "" { // development aid: override the case count
+		fmt.Sscan(v, &total)
+	}
 	n := total / env.Shards
 	if n < 1 {
 		n = 1
